@@ -217,8 +217,25 @@ def analyze(scn, timeout_s=900, reduce=True, verbose=False, seed=0, raw_states=3
                 break
             try:
                 out = ind.check(timeout_s)
+                if out['result'] == 'inductive-safe':
+                    # no deadlock state in R.  States from which completion is nevertheless unreachable
+                    # (traps in which threads only spin) are looked for on the explored graph and
+                    # confirmed by replay; their absence is certified by the solver's progress query.
+                    doomed = ind.doomed(accept=(lambda k_: excluded_state(prod, scn, ind, k_, exclude)) if exclude else None)
+                    if doomed:
+                        k = min(doomed, key=lambda k_: len(ind.red.path_to(k_)))
+                        out = {'result': 'bad', 'kind': 'deadlock', 'queries': out['queries'],
+                               'state': {'pcs': k[0], 'vals': k[1], 'ins': tuple(0 if x is None else x for x in k[2])},
+                               'R_states': len(ind.red.states), 'key': k, 'livelock': True}
+                    else:
+                        q = ind.progress_check(timeout_s)
+                        out['queries'].append(q)
+                        if q['result'] != 'unsat':
+                            out['result'] = 'unknown'
+                            out['detail'] = f'progress certificate {q["result"]}'
             except Exception as e:
-                res['reason'] = f'inductive check: {type(e).__name__}: {e}'
+                import traceback
+                res['reason'] = f'inductive check: {type(e).__name__}: {e} {traceback.format_exc()[-600:]}'
                 break
             for q in out['queries']:
                 q['R_states'] = out.get('R_states')
@@ -253,7 +270,7 @@ def analyze(scn, timeout_s=900, reduce=True, verbose=False, seed=0, raw_states=3
                 if kind == 'overflow':
                     res['reason'] = 'a container bound of the model (cap) is reachable: raise caps'
                     break
-                k = ind.find_key(out['state'])
+                k = out.get('key') or ind.find_key(out['state'])
                 path = ind.red.path_to(k)
                 steps = [{'k': i, 'thread': t, 'prims': [(d, c) for d, c, _ in e.prims],
                           'locs': [l for _, _, l in e.prims]} for i, (t, e) in enumerate(path)]
@@ -293,6 +310,26 @@ def analyze(scn, timeout_s=900, reduce=True, verbose=False, seed=0, raw_states=3
     res['solver_s'] = round(solver_s, 2)
     res['wall_s'] = round(time.time() - t0, 2)
     return res
+
+
+def doomed_set(doomed, _cache={}):
+    i = id(doomed)
+    if _cache.get('id') != i:
+        _cache['id'] = i
+        _cache['set'] = set(doomed)
+    return _cache['set']
+
+
+def excluded_state(prod, scn, ind, k, exclude):
+    """Is explored state k covered by a known-finding signature (kind deadlock)?"""
+    if not exclude:
+        return False
+    st = {'pcs': k[0], 'vals': k[1]}
+    sig = signature_pcs(prod, scn, st, ind, 'deadlock')
+    for e in exclude:
+        if e.get('kind') == 'deadlock' and e.get('where') == sig['where']:
+            return True
+    return False
 
 
 def where_pcs(prod, pcs):
